@@ -13,11 +13,14 @@ Ys == <<1, -2, 3>>
 Diag(v) == [i \in 1..Len(v) |-> [j \in 1..Len(v) |-> IF i = j THEN v[i] ELSE <<0, 1>>]]
 Sigs(n) == { Diag(Pre(<<<<0, 1>>, <<0, 1>>, <<0, 1>>>>, n)), Diag(Pre(<<<<1, 4>>, <<1, 4>>, <<1, 4>>>>, n)), Diag(Pre(<<<<1, 1>>, <<1, 4>>, <<1, 2>>>>, n)) }
         \cup (IF n = 3 THEN { << <<<<1, 1>>, <<1, 2>>, <<0, 1>>>>, <<<<1, 2>>, <<1, 1>>, <<0, 1>>>>, <<<<0, 1>>, <<0, 1>>, <<1, 4>>>> >> } ELSE {})
-\* a change-point kernel has a position-dependent prior variance (amplitudes 1 and 4 on the two sides)
-Kernels(d, n) == { Se1(d), Se2(d), Rq1(d), Sum(<<Se1(d), Wn>>), Sum(<<Rq1(d), Hn(n)>>) } \cup (IF n = 2 THEN {Sum(<<Cp(<<Se1(d), Se2(d)>>, <<1>>), Wn>>)} ELSE {})
+\* a change-point kernel has a position-dependent prior variance (amplitudes 1 and 4 on the two sides); with three kernels the first,
+\* the middle and the last region are weighted differently
+Kernels(d, n) == { Se1(d), Se2(d), Rq1(d), Sum(<<Se1(d), Wn>>), Sum(<<Rq1(d), Hn(n)>>) } \cup (IF n = 2 THEN {Sum(<<Cp(<<Se1(d), Se2(d)>>, <<1>>), Wn>>), Sum(<<Cp(<<Se1(d), Se2(d), Se1(d)>>, <<0, 1>>), Wn>>)} ELSE {})
 Means(d) == { [k |-> "const", th |-> <<2>>], [k |-> "lin", th |-> Pre(<<1, 2, -1>>, 1 + d)], [k |-> "quad", th |-> Pre(<<1, 2, -1, 1, 1>>, 1 + 2 * d)] }
 Queries(d) == IF d = 1 THEN << <<1>>, <<2>>, <<-1>> >> ELSE << <<1, 0>>, <<0, 0>>, <<2, 1>> >>
 CONSTANT Focus       \* "all" | "se" (only the problems with derivative predictions: squared-exponential kernel, <= 2 data points)
+Rep == 128
+ScaleLog2 == 0 - 12
 VARIABLES pb, cx, out
 \* two families: everything for n <= 2 data points; for n = 3 a leaner set (exact 3x3 inverses and their products must fit 32 bits)
 Small == {X \in XSets : Len(X) <= 2}
@@ -28,18 +31,26 @@ Init == /\ \/ \E X \in Small : \E kn \in Kernels(Len(X[1]), Len(X)), mf \in Mean
                                 sg \in {Diag(<<<<1, 4>>, <<1, 4>>, <<1, 4>>>>), Diag(<<<<1, 1>>, <<1, 4>>, <<1, 2>>>>)} :
                  pb = [X |-> X, y |-> Ys, sig |-> sg, kern |-> kn, mean |-> mf]
         /\ (Focus = "se" => (pb.kern.k = "se" /\ Len(pb.X) <= 2))
+        /\ (pb.kern.k = "sum" /\ pb.kern.parts[1].k = "cp" /\ Len(pb.kern.parts[1].parts) = 3           \* three-kernel change-point: 32-bit limits
+               => pb.X = << <<0>>, <<1>> >> /\ pb.mean.k # "quad" /\ pb.sig[1][1] = pb.sig[2][2])
         /\ cx = FullContext(pb)
         /\ out = 0
 Q == Queries(Len(pb.X[1]))
 IsSe == pb.kern.k = "se"
 \* three data points: values only (posterior, scores, leave-one-out predictions); the gradient tables need products beyond 32 bits
-Lean == N(pb) = 3
+IsCp3 == pb.kern.k = "sum" /\ pb.kern.parts[1].k = "cp" /\ Len(pb.kern.parts[1].parts) = 3
+Lean == N(pb) = 3 \/ IsCp3
 \* the cubic products of the exact LOO gradient only fit 32 bits for uniform data noise (otherwise it is not exported)
 LooGradFits == (\A i \in 1..N(pb) : pb.sig[i][i] = pb.sig[1][1]) /\ pb.X \in { << <<0>>, <<1>> >>, << <<1>> >> } /\ pb.kern.k \in {"se", "rq"}
 Next == /\ out = 0 /\ out' = 1 /\ UNCHANGED <<pb, cx>>
         /\ PrintT(ToJson([pb |-> pb, Q |-> Q, mean |-> [i \in 1..Len(Q) |-> PostMean(cx, Q[i])], cov |-> PostCovMatrix(cx, Q),
                           prior |-> [i \in 1..Len(Q) |-> Val(pb.kern, Q[i], Q[i])],
-                          lml |-> LML(cx), loo |-> LOOTerms(cx), loomv |-> [i \in 1..N(pb) |-> LooMuVar(cx, i)],
+                          lml |-> LML(cx), loo |-> LOOTerms(cx),
+                          \* Rep copies of the data set placed so far apart that the prior covariance between copies vanishes: every score is
+                          \* Rep times the score of one copy (hundreds of data points); in units 2^ScaleLog2 times larger (data, errors, prior
+                          \* mean and amplitude) every data point adds -ScaleLog2 ln2 to either score
+                          rep |-> Rep, scale_log2 |-> ScaleLog2, lml_rep |-> SScale(RInt(Rep), LML(cx)),
+                          unit_shift |-> SAtom(RInt((0 - ScaleLog2) * Rep * N(pb)), <<"ln2">>), loomv |-> [i \in 1..N(pb) |-> LooMuVar(cx, i)],
                           lmlgm |-> LMLGradMean(cx), lmlgc |-> IF Lean THEN <<>> ELSE LMLGradCov(cx), loogm |-> IF Lean THEN <<>> ELSE LOOGradMean(cx), loogc |-> IF LooGradFits THEN LOOGradCov(cx) ELSE <<>>,
                           gmean |-> IF IsSe /\ ~Lean THEN [i \in 1..Len(Q) |-> GradMean(cx, pb.kern, Q[i])] ELSE <<>>,
                           gvar |-> IF IsSe /\ ~Lean THEN [i \in 1..Len(Q) |-> GradVar(cx, pb.kern, Q[i])] ELSE <<>>,
